@@ -429,6 +429,66 @@ def spec_cidr_match(ck):
     ck.bounds['cidr_match'] = 'any IPv4/IPv6 address value, any prefix (opaque), both parse outcomes; containment itself is the cidr crate\'s (trusted)'
 
 
+def spec_source_address_mapping(ck):
+    """the address a listener records for its peer (and shows to the rule filters as request.source): `try_map_v4_addr` rewrites
+    what the dual-stack socket reports.  An IPv4 client arrives as the IPv4-mapped address ::ffff:a.b.c.d and becomes a.b.c.d;
+    every other address -- a real IPv6 peer, ::1 included -- is the connection's own value and stays what it is."""
+    fn = ck.find(lambda: ck.db.free('try_map_v4_addr'), 'try_map_v4_addr')
+    if fn is None:
+        return
+    ex = ck.engine(loop_bound=4)
+    ex.benign_havoc = BENIGN
+    st = State()
+    sa = CA.sym_socketaddr(ex, st, 'peer')
+    v4in = sa.variants[0][0]
+    v6in = sa.variants[1][0]
+    b = v6in.fields[0].fields[0]
+    mapped = z3.And(z3.And([b.at(i) == BV(0, 8) for i in range(10)]), b.at(10) == BV(0xff, 8), b.at(11) == BV(0xff, 8))
+    low = z3.Concat(b.at(12), b.at(13), b.at(14), b.at(15))
+    ex.inputs = {'peer_family': sa.discr, 'peer_ip4': v4in.fields[0].fields[0], 'peer_ip6': b, 'peer_port4': v4in.fields[1], 'peer_port6': v6in.fields[1]}
+    finals = ex.call_fn(st, fn, [sa])
+    n = 0
+    for s in finals:
+        if s.status != 'returned' or not isinstance(s.ret, Agg):
+            continue
+        n += 1
+        r = s.ret
+        rd = r.discr if not isinstance(r.discr, int) else BV(r.discr, 64)
+        ind = sa.discr
+        r4 = r.variants.get(0, {}).get(0)
+        r6 = r.variants.get(1, {}).get(0)
+        same4 = z3.BoolVal(False) if r4 is None else z3.And(rd == BV(0, 64), r4.fields[0].fields[0].t == v4in.fields[0].fields[0].t, r4.fields[1].t == v4in.fields[1].t)
+        same6 = z3.BoolVal(False) if r6 is None else z3.And(rd == BV(1, 64), C.bytes_equal(ex, s, r6.fields[0].fields[0], b), r6.fields[1].t == v6in.fields[1].t)
+        as4 = z3.BoolVal(False) if r4 is None else z3.And(rd == BV(0, 64), r4.fields[0].fields[0].t == low, r4.fields[1].t == v6in.fields[1].t)
+        ex.prove(s, 'C02/source-address/an-ipv4-peer-keeps-its-address', z3.Implies(ind == BV(0, 64), same4))
+        ex.prove(s, 'C02/source-address/an-ipv4-mapped-peer-is-shown-as-its-ipv4-address', z3.Implies(z3.And(ind == BV(1, 64), mapped), as4))
+        ex.prove(s, 'C02/source-address/any-other-ipv6-peer-keeps-its-address', z3.Implies(z3.And(ind == BV(1, 64), z3.Not(mapped)), same6))
+    if not n:
+        ck.add('C02/source-address/reachability', 'vacuous', 'try_map_v4_addr never returned in the model')
+    for f in ex.findings:
+        if not hasattr(f, 'target'):
+            f.target = 'try_map_v4_addr'
+    ck.plans.append(_source_address_replay_plan)
+    ck.absorb(ex, 'try_map_v4_addr', finals)
+    ck.bounds['source-address'] = 'every socket address of either family, any port'
+
+
+def _source_address_replay_plan(ob):
+    f = ob.finding
+    if f is None or (ob.target or '') != 'try_map_v4_addr':
+        return None
+    import ipaddress
+    i = f.inputs or {}
+    cands = ['[::1]:1080', '[::]:5', '[::2.3.4.5]:99', '[2001:db8::1]:443', '[::ffff:10.1.2.3]:8080', '10.1.2.3:8080']
+    try:
+        if i.get('peer_family', 0) == 1:
+            ip = ipaddress.IPv6Address(bytes.fromhex((i.get('peer_ip6') or {}).get('hex', '00' * 16)))
+            cands.insert(0, '[%s]:%d' % (ip, i.get('peer_port6', 0)))
+    except Exception:
+        pass
+    return 'script_ext', {'driver': 'map_v4', 'args': {'addrs': cands}}, lambda o: bool(o.get('mismatch')) or bool(o.get('panicked'))
+
+
 def cidr_replay_plan(ob):
     f = ob.finding
     if f is None or not ob.label.startswith('C02/cidr_match/'):
